@@ -14,36 +14,91 @@ theorem isOpen_false_of (w : World) (i : Nat) (c : Conn) (h : w.conns[i]? = some
 /-! ### rfbCloseClient -/
 
 @[simp] theorem closeClient_list (w : World) (i : Nat) : (closeClient w i).list = w.list := by
-  unfold closeClient; split <;> simp
+  unfold closeClient
+  cases w.conns[i]? with
+  | none => rfl
+  | some c => simp only; split <;> split <;> simp
 
 @[simp] theorem closeClient_length (w : World) (i : Nat) :
     (closeClient w i).conns.length = w.conns.length := by
-  unfold closeClient; split <;> simp
+  unfold closeClient
+  cases w.conns[i]? with
+  | none => rfl
+  | some c => simp only; split <;> split <;> simp
+
+theorem closeClient_conns (w : World) (i : Nat) (c : Conn) (hc : w.conns[i]? = some c) :
+    (closeClient w i).conns = (modConn w i closeRec).conns := by
+  unfold closeClient
+  simp only [hc]
+  split <;> split <;> simp [modConn]
 
 theorem closeClient_get_ne (w : World) (i j : Nat) (h : i ≠ j) :
     (closeClient w i).conns[j]? = w.conns[j]? := by
-  unfold closeClient; split
-  · simp [modConn_get_ne _ _ _ _ h]
-  · rfl
+  cases hc : w.conns[i]? with
+  | none => simp [closeClient, hc]
+  | some c => rw [closeClient_conns w i c hc]; exact modConn_get_ne _ _ _ _ h
+
+theorem closeClient_get_self (w : World) (i : Nat) (c : Conn) (hc : w.conns[i]? = some c) :
+    (closeClient w i).conns[i]? = some (closeRec c) := by
+  rw [closeClient_conns w i c hc]; exact modConn_get_self w i closeRec c hc
+
+theorem closeClient_same (w : World) (i : Nat) :
+    (closeClient w i).screens = w.screens ∧ (closeClient w i).ptrOwner = w.ptrOwner ∧
+    (closeClient w i).nbLost = w.nbLost ∧ (closeClient w i).recLost = w.recLost ∧
+    (closeClient w i).shutLeft = w.shutLeft ∧ (closeClient w i).wsLostHs = w.wsLostHs ∧
+    (closeClient w i).wsLostGone = w.wsLostGone ∧ (closeClient w i).extLost = w.extLost ∧
+    (closeClient w i).stray = w.stray ∧ (closeClient w i).extDataLost = w.extDataLost := by
+  unfold closeClient
+  cases w.conns[i]? with
+  | none => simp
+  | some c => simp only; split <;> split <;> simp
+
+theorem liveOk_closeRec (c : Conn) (h : LiveOk c) : LiveOk (closeRec c) := by
+  unfold closeRec LiveOk
+  cases hs : c.sockOpen
+  · have := h.2.2.2.2 hs
+    simp [h.1, h.2.1, h.2.2.1, this.1, this.2.1]
+  · have := h.2.2.2.1 hs
+    simp [h.1, h.2.1, h.2.2.1, this]
+
+theorem closeRec_dead (c : Conn) (hs : c.sockOpen = false) (hx : c.extData = false) :
+    closeRec c = c := by
+  unfold closeRec
+  rw [hs]
+  simp only [Bool.false_eq_true, if_false]
+  cases c
+  simp only at hx hs
+  subst hx; subst hs
+  rfl
+
+theorem deadOk_closeRec (v : Variant) (c : Conn) (h : DeadOk v c) : DeadOk v (closeRec c) := by
+  have hx : c.extData = false := by
+    rcases h.2.2 with ht | hn
+    · exact ht.2.2.2.2.2.2.2.2
+    · exact hn.2.2.2.2.2.2.2.2.2.2.2
+  rw [closeRec_dead c h.2.1 hx]; exact h
 
 theorem inv_closeClient {v : Variant} {w : World} (h : Inv v w) (i : Nat) :
     Inv v (closeClient w i) := by
-  unfold closeClient
-  split
-  · rename_i ho
-    obtain ⟨c0, hc0, hs0⟩ := (isOpen_iff w i).mp ho
-    apply inv_emit
-    apply inv_modConn h
-    · intro c hc _ hl
-      rw [hc0] at hc; cases hc
-      refine ⟨hl.1, hl.2.1, hl.2.2.1, ?_, ?_⟩
-      · intro hx; simp at hx
-      · intro _; simp [hl.2.2.2.1 hs0]
-    · intro c hc hn hd
-      rw [hc0] at hc; cases hc
-      rw [hd.2.1] at hs0; cases hs0
-    · intro c _; simp
-  · exact h
+  cases hc : w.conns[i]? with
+  | none => simpa [closeClient, hc] using h
+  | some c0 =>
+    have hm : Inv v (modConn w i closeRec) := by
+      apply inv_modConn h
+      · intro c _ _ hl; exact liveOk_closeRec c hl
+      · intro c _ _ hd; exact deadOk_closeRec v c hd
+      · intro c _; unfold closeRec; split <;> simp
+    obtain ⟨s1, s2, s3, s4, s5, s6, s7, s8, s9, s10⟩ := closeClient_same w i
+    have hcn := closeClient_conns w i c0 hc
+    refine ⟨by simpa using hm.nodup, ?_, ?_, ?_, ?_, ?_, ?_, by rw [s1]; exact h.main, by rw [s2]; simpa using h.ptr⟩
+    · intro j hj; rw [closeClient_length]; exact h.bound j (by simpa using hj)
+    · intro j c hcj hj; rw [hcn] at hcj; exact hm.live j c hcj (by simpa using hj)
+    · intro j c hcj hj; rw [hcn] at hcj; exact hm.dead j c hcj (by simpa using hj)
+    · unfold Counters; rw [s3, s4, s5, s6, s7, s8, s9, s10]; exact h.counters
+    · intro s hs; rw [s1] at hs
+      have := hm.refs s (by simpa using hs)
+      simpa [owners, hcn] using this
+    · intro j c hcj href; rw [hcn] at hcj; rw [s1]; exact hm.scr j c hcj href
 
 /-! ### screens -/
 
@@ -103,7 +158,9 @@ theorem goneCore_counters (v : Variant) (w : World) (i : Nat) (c : Conn) :
     (goneCore v w i c).shutLeft = w.shutLeft ∧ (goneCore v w i c).wsLostHs = w.wsLostHs ∧
     (goneCore v w i c).wsLostGone = w.wsLostGone + (if c.wspath && !v.goneWspath then 1 else 0) ∧
     (goneCore v w i c).stray = w.stray + (if c.ftFd && !v.ftClose then 1 else 0) ∧
-    (goneCore v w i c).extLost = w.extLost + (if v.extFree then 0 else c.exts) := by
+    (goneCore v w i c).extLost = w.extLost + (if v.extFree then 0 else c.exts) ∧
+    (goneCore v w i c).extDataLost = w.extDataLost + (if c.extData && !v.goneExtClose then 1 else 0) ∧
+    (goneCore v w i c).ptrOwner = (if w.ptrOwner == some i then none else w.ptrOwner) := by
   unfold goneCore
   by_cases h1 : c.sockOpen = true <;> by_cases h2 : c.hooked = true <;> simp [h1, h2]
 
@@ -124,7 +181,7 @@ theorem inv_goneCore {v : Variant} {w : World} (h : Inv v w) (i : Nat) (c : Conn
   have hl := h.live i c hc hi
   have hmem : ∀ j, j ∈ (goneCore v w i c).list ↔ j ≠ i ∧ j ∈ w.list := by
     intro j; rw [goneCore_list]; exact h.nodup.mem_erase_iff
-  refine ⟨?_, ?_, ?_, ?_, ?_, ?_, ?_, ?_⟩
+  refine ⟨?_, ?_, ?_, ?_, ?_, ?_, ?_, ?_, ?_⟩
   · rw [goneCore_list]; exact h.nodup.erase i
   · intro j hj; rw [goneCore_length]; exact h.bound j ((hmem j).mp hj).2
   · intro j cj hcj hj
@@ -153,12 +210,13 @@ theorem inv_goneCore {v : Variant} {w : World} (h : Inv v w) (i : Nat) (c : Conn
       · simp [hw, hij] at hcj; subst hcj
         have : j ∉ w.list := fun hjl => hj ((hmem j).mpr ⟨Ne.symm hij, hjl⟩)
         exact h.dead j c0 hw this
-  · obtain ⟨c1, c2, c3, c4, c5, c6, c7⟩ := goneCore_counters v w i c
-    obtain ⟨k1, k2, k3, k4, k5, k6⟩ := h.counters
-    refine ⟨by rw [c1]; exact k1, by rw [c2, c3]; exact k2, ?_, by rw [c4]; exact k4, ?_, ?_⟩
+  · obtain ⟨c1, c2, c3, c4, c5, c6, c7, c8, _⟩ := goneCore_counters v w i c
+    obtain ⟨k1, k2, k3, k4, k5, k6, k7⟩ := h.counters
+    refine ⟨by rw [c1]; exact k1, by rw [c2, c3]; exact k2, ?_, by rw [c4]; exact k4, ?_, ?_, ?_⟩
     · intro hv; rw [c5, k3 hv]; simp [hv]
     · intro hv; rw [c6, k5 hv]; simp [hv]
     · intro hv; rw [c7, k6 hv]; simp [hv]
+    · intro hv; rw [c8, k7 hv]; simp [hv]
   · intro s hs
     rw [goneCore_screens, hl.2.2.1] at hs
     simp only [if_true] at hs
@@ -184,6 +242,16 @@ theorem inv_goneCore {v : Variant} {w : World} (h : Inv v w) (i : Nat) (c : Conn
       · subst hij; simp [hw] at hcj; subst hcj; simp [goneRec] at href
       · simp [hw, hij] at hcj; subst hcj; exact h.scr j c0 hw href
   · rw [goneCore_screens, hl.2.2.1]; simp only [if_true, hasScreen_decRef]; exact h.main
+  · intro j hj
+    rw [(goneCore_counters v w i c).2.2.2.2.2.2.2.2] at hj
+    by_cases hp : w.ptrOwner = some i
+    · simp [hp] at hj
+    · have hne : (w.ptrOwner == some i) = false := by simpa using hp
+      rw [hne] at hj
+      simp only [Bool.false_eq_true, if_false] at hj
+      have hjl := h.ptr j hj
+      refine (hmem j).mpr ⟨?_, hjl⟩
+      intro hji; subst hji; exact hp hj
 
 theorem inv_gone {v : Variant} {w : World} (h : Inv v w) (i : Nat) (hi : i ∈ w.list) :
     Inv v (gone v w i) := by
@@ -193,13 +261,37 @@ theorem inv_gone {v : Variant} {w : World} (h : Inv v w) (i : Nat) (hi : i ∈ w
   | some c =>
     have hg := inv_goneCore h i c hc hi
     simp only
-    cases c.goneKick with
-    | none => exact hg
-    | some k =>
-      simp only
-      split
-      · exact inv_closeClient hg k
-      · exact hg
+    have hk : Inv v (match c.goneKick with
+        | some k => if (c.hooked && appKnows (goneCore v w i c) k) = true then closeClient (goneCore v w i c) k
+                    else goneCore v w i c
+        | none => goneCore v w i c) := by
+      cases c.goneKick with
+      | none => exact hg
+      | some k =>
+        simp only
+        split
+        · exact inv_closeClient hg k
+        · exact hg
+    split
+    · exact inv_emit hk _
+    · exact hk
+
+theorem gone_kick_list (v : Variant) (w : World) (i : Nat) (c : Conn) :
+    (match c.goneKick with
+      | some k => if (c.hooked && appKnows (goneCore v w i c) k) = true then closeClient (goneCore v w i c) k
+                  else goneCore v w i c
+      | none => goneCore v w i c).list = w.list.erase i ∧
+    (match c.goneKick with
+      | some k => if (c.hooked && appKnows (goneCore v w i c) k) = true then closeClient (goneCore v w i c) k
+                  else goneCore v w i c
+      | none => goneCore v w i c).conns.length = w.conns.length := by
+  cases c.goneKick with
+  | none => exact ⟨goneCore_list v w i c, goneCore_length v w i c⟩
+  | some k =>
+    simp only
+    split
+    · exact ⟨by rw [closeClient_list]; exact goneCore_list v w i c, by rw [closeClient_length]; exact goneCore_length v w i c⟩
+    · exact ⟨goneCore_list v w i c, goneCore_length v w i c⟩
 
 theorem gone_list (v : Variant) (w : World) (i : Nat) (hb : i < w.conns.length) :
     (gone v w i).list = w.list.erase i := by
@@ -208,13 +300,9 @@ theorem gone_list (v : Variant) (w : World) (i : Nat) (hb : i < w.conns.length) 
   | none => rw [List.getElem?_eq_none_iff] at hc; omega
   | some c =>
     simp only
-    cases c.goneKick with
-    | none => exact goneCore_list v w i c
-    | some k =>
-      simp only
-      split
-      · rw [closeClient_list]; exact goneCore_list v w i c
-      · exact goneCore_list v w i c
+    split
+    · exact (gone_kick_list v w i c).1
+    · exact (gone_kick_list v w i c).1
 
 theorem gone_length (v : Variant) (w : World) (i : Nat) :
     (gone v w i).conns.length = w.conns.length := by
@@ -223,12 +311,8 @@ theorem gone_length (v : Variant) (w : World) (i : Nat) :
   | none => rfl
   | some c =>
     simp only
-    cases c.goneKick with
-    | none => exact goneCore_length v w i c
-    | some k =>
-      simp only
-      split
-      · rw [closeClient_length]; exact goneCore_length v w i c
-      · exact goneCore_length v w i c
+    split
+    · exact (gone_kick_list v w i c).2
+    · exact (gone_kick_list v w i c).2
 
 end VncModel.Life
